@@ -690,3 +690,119 @@ class Engine:
             if '!' not in s and any(k in s for k in self.KEEP):
                 return s
         return '?S' if (self.track_taint and tainted(e)) else '?'
+
+
+def ackermannize(terms):
+    """Replace every application of an uninterpreted function by a fresh variable, the SAME variable for syntactically identical
+    (hash-consed, simplified) argument lists.  Sound for proving equalities: if the abstracted disequality is unsatisfiable so is
+    the original (the original is an instance); a satisfiable abstraction proves nothing (fall back to the exact query)."""
+    from z3 import is_app, is_const, Z3_OP_UNINTERPRETED
+    cache, table = {}, {}
+
+    def go(e):
+        k = e.get_id()
+        if k in cache:
+            return cache[k]
+        if e.num_args() == 0:
+            cache[k] = e
+            return e
+        kids = [go(c) for c in e.children()]
+        d = e.decl()
+        if d.kind() == Z3_OP_UNINTERPRETED:
+            kids = [simplify(c) for c in kids]
+            key = (d.name(),) + tuple(c.get_id() for c in kids)
+            v = table.get(key)
+            if v is None:
+                v = (BitVec('ack!%s!%d' % (d.name(), len(table)), e.size()), kids)   # keep kids alive so ids stay unique
+                table[key] = v
+            r = v[0]
+        else:
+            r = d(*kids)
+        cache[k] = r
+        return r
+    return [simplify(go(t)) for t in terms]
+
+
+class NotLinear(Exception):
+    pass
+
+
+def xor_normal_form(terms):
+    """Exact normal form for the fragment {constants, symbols, xor, not, extract, concat, constant shifts/rotates, zero/sign-free
+    extensions, uninterpreted functions}: every bit becomes (constant, frozenset of atoms); an uninterpreted application is an
+    atom family named by the normal forms of its argument bits (Ackermann abstraction over a canonical form, so congruent
+    applications coincide).  Two terms are equal for all values if their normal forms coincide.  Raises NotLinear otherwise."""
+    from z3 import (Z3_OP_BXOR, Z3_OP_BNOT, Z3_OP_EXTRACT, Z3_OP_CONCAT, Z3_OP_UNINTERPRETED, Z3_OP_BNUM, Z3_OP_ZERO_EXT, Z3_OP_BSHL, Z3_OP_BLSHR,
+                    Z3_OP_ROTATE_LEFT, Z3_OP_ROTATE_RIGHT, Z3_OP_BOR, Z3_OP_BAND)
+    cache, table = {}, {}
+    ZERO = (0, frozenset())
+
+    def go(e):
+        k = e.get_id()
+        if k in cache:
+            return cache[k]
+        w = e.size()
+        d = e.decl()
+        kind = d.kind()
+        if kind == Z3_OP_BNUM:
+            v = e.as_long()
+            r = [((v >> i) & 1, frozenset()) for i in range(w)]
+        elif kind == Z3_OP_UNINTERPRETED and e.num_args() == 0:
+            nm = d.name()
+            r = [(0, frozenset([(nm, i)])) for i in range(w)]
+        elif kind == Z3_OP_UNINTERPRETED:
+            args = tuple(tuple(go(c)) for c in e.children())
+            key = (d.name(), args)
+            nm = table.get(key)
+            if nm is None:
+                nm = 'uf!%s!%d' % (d.name(), len(table))
+                table[key] = nm
+            r = [(0, frozenset([(nm, i)])) for i in range(w)]
+        elif kind == Z3_OP_BXOR:
+            r = [ZERO] * w
+            for c in e.children():
+                cc = go(c)
+                r = [(a[0] ^ b[0], a[1] ^ b[1]) for a, b in zip(r, cc)]
+        elif kind == Z3_OP_BNOT:
+            r = [(a[0] ^ 1, a[1]) for a in go(e.arg(0))]
+        elif kind == Z3_OP_EXTRACT:
+            hi, lo = d.params()[0], d.params()[1]
+            r = go(e.arg(0))[lo:hi + 1]
+        elif kind == Z3_OP_CONCAT:
+            r = []
+            for c in reversed(e.children()):
+                r = r + go(c)
+        elif kind == Z3_OP_ZERO_EXT:
+            r = go(e.arg(0)) + [ZERO] * d.params()[0]
+        elif kind in (Z3_OP_BSHL, Z3_OP_BLSHR) and is_bv_value(e.arg(1)):
+            n = e.arg(1).as_long()
+            a = go(e.arg(0))
+            r = ([ZERO] * min(n, w) + a[:max(w - n, 0)]) if kind == Z3_OP_BSHL else (a[min(n, w):] + [ZERO] * min(n, w))
+        elif kind in (Z3_OP_ROTATE_LEFT, Z3_OP_ROTATE_RIGHT):
+            n = d.params()[0] % w
+            a = go(e.arg(0))
+            r = (a[w - n:] + a[:w - n]) if kind == Z3_OP_ROTATE_LEFT else (a[n:] + a[:n])
+        elif kind in (Z3_OP_BOR, Z3_OP_BAND):
+            # only bitwise-disjoint OR / AND with a constant mask are linear
+            parts = [go(c) for c in e.children()]
+            r = []
+            for i in range(w):
+                bits = [p[i] for p in parts]
+                if kind == Z3_OP_BOR:
+                    nz = [b for b in bits if b != ZERO]
+                    if len(nz) > 1:
+                        raise NotLinear('or of overlapping bits')
+                    r.append(nz[0] if nz else ZERO)
+                else:
+                    if any(b == ZERO for b in bits):
+                        r.append(ZERO)
+                    else:
+                        nc = [b for b in bits if b != (1, frozenset())]
+                        if len(nc) > 1:
+                            raise NotLinear('and of two non-constants')
+                        r.append(nc[0] if nc else (1, frozenset()))
+        else:
+            raise NotLinear(str(d.name()))
+        cache[k] = r
+        return r
+    return [tuple(go(t)) for t in terms]
